@@ -608,6 +608,28 @@ ROUND2 = {
 for _p, _t in ROUND2.items():
     PROPS[_p]["level_text"] += _t
 
+# round 2, second pass (repairs after the second independent review, review_props_round2_2026-09-28.md)
+ROUND2B = {
+ "C01": " Second pass: hybrid_grounded_from_facts (any fact order); biodivine's restrict is now an operation of the library structure with its own law (the crate's inherent method; select-then-exists kept as a derived lemma).",
+ "C03": " Second pass: native_rewriting_on_hybrid / hybrid_stmrew_exact / hybrid_stmrew2_exact - the DEFAULT CLI arm's rewriting variant (candidates from the un-grounded biodivine object, reduct test on the pre-grounded native store), for which the round-1 hypothesis 'same functions' is false (hsame_fails_for_the_cli_pairing); stable_none_then_empty.",
+ "C05": " Second pass: iterator_variant_exact_two_valued (the CLI's --twoval schedule), shared_sender_clones_deliver (sender CLONES: k searches sharing clones deliver the concatenation and the consumer ends exactly after the last clone is dropped - the library's own test pattern), rendezvous_channel_delivers_exactly (bounded(0)), receiver_dropped_before_last_model_panics (the .expect at the send site, concrete producer).",
+ "C08": " Second pass (web half): web_parse_rejects_rejected_text, web_task_stores_error_for_rejected_text, web_no_answer_for_rejected_text (over every history, a document whose code is rejected never holds a framework or a result, for both parsings).",
+ "C09": " Second pass: cli_bridge_is_this_bridge / cli_hybrid_step_is_this_hybrid_step (the bridge the driver and C15 run IS the bridge of these theorems); dump_spec_holds_for_reduced_shared_diagrams: the project's own store as a fully lawful library (Bio.storeLib, Bio.storeLawful) whose dumps are reduced, shared and skip levels, as real biodivine dumps do; biodivine_from_parser_any_order.",
+ "C10": " Second pass: an_sort_is_varsort_alphanum, varsort_alphanum_unique (the natural order is total, transitive and antisymmetric on all labels: NatLexOrder); output invariance composed for the counting, pre-filter, nogood and two-valued sections.",
+ "C11": " Second pass: query_answers_exact (queries get real content: counts, paths, depth and dependency sets against truth tables), ORDER across histories: stable_answers_equal_after_history, complete_order_equal_after_history, ng_order_history_independent (the nogood search lists the same decided parts in the same order on DIFFERENT node tables, every heuristic and bound: its heuristics read only positions, path counts and dependency sets); order_across_histories_partial (open: the two counting searches); "
+        "memoised_count_is_the_reimport_exception; same_seed_same_answers for an abstract deterministic generator (StdRng itself is not modelled); history_after_roundtrip_lists / searches_after_roundtrip_lists / nogood_after_roundtrip_lists (with C14: after both persistence round trips every history returns the SAME LISTS - order and handle numbers).",
+ "C12": " Second pass: var_dependencies_card (the number of distinct dependency entries equals the number of essential variables, under every feature set).",
+ "C13": " Second pass: paths_word_exact / more_models_paths_word_iff (64-bit path counts agree with the naturals below the word size), cubes_terminal_not_cover (the terminal exception stated).",
+ "C15": " Second pass: hybrid_arm_rewriting_section + hybrid_arm_runs_the_verified_bridge; fuel_monotone, halted_from_some_bound_on and cli_text_faithful_every_large_bound for ALL arms incl. hybrid with --twoval/--stmng (no fuel hypothesis; the output is constant from some bound on); an_prints_in_natural_lexical_order; store_world_faithful (the store-based library as a world: the biodivine and hybrid arms of the model now also run for 65-130 statements, except --stmrew2); "
+        "the REJECTION branches of the model run against the binary (clibadrun carries the malformed text); stmrew_loses_model_on_duplicate_condition referenced as the visible exception.",
+ "C16": " Second pass: dump hypotheses bounded (the unbounded form was unsatisfiable) with kernel-checked instance and reachable_served_answer_tt (no library hypothesis left); biodivine's variable-name check in the hybrid parse model (hybrid_parse_rejects_special_labels: D6 through the web); accepted_solve_eventually_stored (not only safety); NoStaleWrite / NoLostWrite with write_visible_iff_not_lost; running_entries_are_unfinished_tasks over all reachable states; "
+        "fuel monotonicity and all-bounds restatements (solve_fuel_monotone, stored_answers_exact_all_bounds); add_race_breaks_the_sentence (D14) with sequential_requests_sentence_partial.",
+ "C17": " Second pass: noninterference_statement PROVED at request granularity (noninterference_full: only name re-use while the old owner still holds something and a successful foreign login are excluded; every other foreign mention of a name in use is a permitted conflict), response_determined_by_own_results at command granularity. Open: noninterference at command granularity.",
+ "C19": " Second pass: bounded_forwarding (safety for bounded relay channels).",
+}
+for _p, _t in ROUND2B.items():
+    PROPS[_p]["level_text"] += _t
+
 def case_hash(reqs):
     return hashlib.sha1("\n".join(reqs[1:]).encode()).hexdigest()[:16]
 
@@ -1138,7 +1160,7 @@ def replay(prop, path):
 def setup():
     t0 = time.time()
     props = sorted(f[:-5] for f in os.listdir(os.path.join(R.LEAN, "AdfObdd", "Props")) if f.endswith(".lean"))
-    ok, out = R.lake_build(["driver"] + [f"AdfObdd.Props.{p}" for p in props])
+    ok, out = R.lake_build(["driver", "AdfObdd"] + [f"AdfObdd.Props.{p}" for p in props])
     if not ok:
         print(out[-3000:])
         return 1
